@@ -28,7 +28,7 @@ func init() {
 		Directed:    func(tier string) [][]uint64 { return c01Directed(tier) },
 		Run:         func(r *core.Run) { ssoAdversarial(r, "C01") },
 		MustHit:     c01MustHit,
-		RandomRuns:  map[string]int{"quick": 1500, "thorough": 100000},
+		RandomRuns:  map[string]int{"quick": 8000, "thorough": 100000},
 		Assumptions: []string{"documents < 800 elements, depth <= 64", "removal of the round-trip screen is only detectable where a catalogued encoding/xml instability is still exploitable on this Go version (not promised)"},
 	})
 	register(&Prop{
@@ -39,7 +39,7 @@ func init() {
 		Directed:   func(tier string) [][]uint64 { return c04Directed(tier) },
 		Run:        c04Run,
 		MustHit:    append([]string{"skip_config", "logout_flow"}, c01MustHit...),
-		RandomRuns: map[string]int{"quick": 1500, "thorough": 100000},
+		RandomRuns: map[string]int{"quick": 8000, "thorough": 100000},
 	})
 }
 
@@ -114,7 +114,7 @@ func ssoAdversarial(r *core.Run, prop string) {
 		enc                 bool
 	}
 	drawPlan := func() histPlan {
-		return histPlan{t.Int(4, "adv.hist.who"), t.Int(8, "adv.hist.kind"), t.Int(3, "adv.hist.place"), 1 + t.Int(3, "adv.hist.n"), t.Int(4, "adv.hist.enc") == 1}
+		return histPlan{t.Int(5, "adv.hist.who"), t.Int(8, "adv.hist.kind"), t.Int(3, "adv.hist.place"), 1 + t.Int(3, "adv.hist.n"), t.Int(4, "adv.hist.enc") == 1}
 	}
 	plan0 := drawPlan()
 	rollover := t.Int(8, "adv.rollover") == 1
@@ -157,6 +157,13 @@ func ssoAdversarial(r *core.Run, prop string) {
 			idp, key, cert = untrusted, untrustedKey, untrustedCert
 			r.Probe("untrusted_idp")
 		}
+		// who == 4: the trusted IdP signs a Response around assertions that carry somebody
+		// else's (untrusted) signature, e.g. proxied assertions
+		foreignAssertionSigs := who == 4
+		if foreignAssertionSigs {
+			place = PlaceBoth
+			r.Probe("trusted_response_over_foreign_signed_assertions")
+		}
 		now := s.Node.Now()
 		var m *world.LResponse
 		switch kind {
@@ -181,6 +188,9 @@ func ssoAdversarial(r *core.Run, prop string) {
 				if place == PlaceAssertions || place == PlaceBoth {
 					a.Sign = mk()
 					a.Sign.EmptyURI = false
+					if foreignAssertionSigs {
+						a.Sign = world.PlainSigOpts(untrustedKey, untrustedCert)
+					}
 				}
 				if enc {
 					encIDs[a.ID] = true
@@ -198,7 +208,7 @@ func ssoAdversarial(r *core.Run, prop string) {
 			return
 		}
 		hist = append(hist, idp.Msgs[len(idp.Msgs)-1])
-		histSig += fmt.Sprintf("%d%s%d%v%d.", who/3, m.Kind[:2], place, enc, n)
+		histSig += fmt.Sprintf("%d%s%d%v%d.", who-2, m.Kind[:2], place, enc, n)
 		r.Sim.Advance(time.Duration(1+t.Int(20, "adv.hist.gap")) * time.Second)
 	}
 	// store roll-over between issue and delivery: the signing certificate is retired
